@@ -233,7 +233,7 @@ func runC16(c *explore.Ctx) {
 
 	// valid sentences (longer than the raw sweep reaches) with comments at every gap
 	sent := func(name string, side *gramSide, sdl bool, n int) {
-		s := c.Sub(name, fmt.Sprintf("every sentence of ≤ %d tokens of the %s grammar over the core alphabet, plain and with a comment inserted at every single gap, × every limit −2 … N+2", n, side.name),
+		s := c.Sub(name, fmt.Sprintf("every sentence of ≤ %d tokens of the %s grammar over the core alphabet, plain, with a comment inserted at every single gap, and with commas / a BOM / blank characters behind the last and before the first token, × every limit −2 … N+2", n, side.name),
 			"as above (exactness at the boundary N = L, N = L+1 with comments counted)", "every case")
 		if s == nil {
 			return
@@ -258,6 +258,11 @@ func runC16(c *explore.Ctx) {
 			for gpos := 0; gpos <= len(toks); gpos++ {
 				c16Case(c, s, renderGapsSep(toks, map[int]string{gpos: " #c\n"}), sdl)
 			}
+			// ignored characters behind the last token (and before the first) are no tokens
+			for _, ign := range []string{",", "\ufeff", " ,\n", "\t\r\n,,"} {
+				c16Case(c, s, strings.Join(toks, " ")+ign, sdl)
+				c16Case(c, s, ign+strings.Join(toks, " "), sdl)
+			}
 		}
 		s.WallS = time.Since(t0).Seconds()
 	}
@@ -281,6 +286,8 @@ func runC16(c *explore.Ctx) {
 				}
 				sp.States++
 				c16Case(c, sp, d, set.sdl)
+				c16Case(c, sp, d+",", set.sdl)
+				c16Case(c, sp, d+"\ufeff", set.sdl)
 			}
 		}
 		sp.WallS = time.Since(t0).Seconds()
